@@ -662,5 +662,17 @@ Proof.
               | Some l => bool_decide (l ∉ u_full0 s) | None => false end)
     EValue vrs s) as E2.
   unfold bind at 1. rewrite E2; cycle 1.
-  { intros x. unfold level_of_var. cbn [bind get].
-    destruct (vars s !! x) as [l|]; cbn [of_opt bind ret raise]. Show.
+  { intros x. unfold level_of_var. rewrite bind_assoc. cbn [bind get].
+    destruct (vars s !! x) as [l|]; cbn [of_opt bind ret raise]; [|done].
+    unfold ensure. by destruct (bool_decide _). }
+  clear E2.
+  destruct (forallb _ vrs) eqn:F2; cycle 1.
+  { intros [= <- <-]. left. split; [|done]. intros Hall.
+    apply forallb_false_ex in F2 as (v&Hv&Hc).
+    rewrite Forall_forall in Hall. destruct (Hall v Hv) as (l&Hl&Hu).
+    rewrite Hl in Hc. apply bool_decide_eq_false in Hc. apply Hc.
+    by rewrite u_full0_spec. }
+  pose proof (forallb_true_all _ _ F2) as Hunused. clear F2.
+  assert (Hall : Forall removable vrs).
+  { apply Forall_forall. intros v Hv. specialize (Hunused v Hv).
+    specialize (Hunused v Hv). Show.
